@@ -63,6 +63,9 @@ func (r *ApiVersionsResponse) decode(pd packetDecoder, version int16) error {
 	if err != nil {
 		return err
 	}
+	if numBlocks < 0 {
+		return errInvalidArrayLength
+	}
 
 	r.ApiVersions = make([]*ApiVersionsResponseBlock, numBlocks)
 	for i := 0; i < numBlocks; i++ {
